@@ -88,12 +88,13 @@ class ParallelStep(GeneticStep):
         """Computes the ranges for each slide, according to weights."""
         total = sum(self.weights)
         indices = [0] + self.cumsum(
-            [int(round(w * len(population) / total, 0)) for w in self.weights],
+            [int(round(w * target_size / total, 0)) for w in self.weights],
         )
-        ranges = list(zip(indices, indices[1:]))
-        if ranges[-1][0] < target_size:
-            ranges[-1] = (ranges[-1][0], target_size)
-        return ranges
+        # The slices partition [0, target_size): rounded shares that overshoot are clipped and
+        # the last slice absorbs what is missing.
+        indices = [min(i, target_size) for i in indices]
+        indices[-1] = target_size
+        return list(zip(indices, indices[1:]))
 
     def iterate(
         self,
@@ -116,7 +117,7 @@ class ParallelStep(GeneticStep):
                     evaluator,
                     representation,
                     random,
-                    population,
+                    npopulation,
                     end - start,
                     generation,
                 )
